@@ -215,11 +215,20 @@ def run(ctx):
     exhaustive = True
     carrier_hits = {}
     invalid = []
+    tainted = set()        # (source, chain) whose final value is already reported wrongly
+    not_expanded = 0
     for name, tasks in _levels(ctx.tier):
         if ctx.time_left() < 10:
             exhaustive = False
             ctx.note('level %s not started (time cap)' % name)
             continue
+        # a violating state is reported, not expanded: a program that extends one whose RESULT
+        # is already wrong would only repeat that finding under a longer name
+        keep = [t for t in tasks
+                if not any((t['src'], tuple(t['chain'][:k])) in tainted
+                           for k in range(1, len(t['chain'])))]
+        not_expanded += len(tasks) - len(keep)
+        tasks = keep
         pres = pool.run(tasks, 'jv.props.c02:_work', init='jv.props.c02:_init', seed=ctx.seed,
                         deadline=ctx.deadline, tag='c02')
         ctx.absorb(pres, name)
@@ -244,6 +253,8 @@ def run(ctx):
             for f in r['fails']:
                 ctx.violation(f['site'], f['input'], f['detail'],
                               {'task': t, 'input': f['input']})
+                if '|RESULT|' in f['input'] or '|RESULT()|' in f['input']:
+                    tainted.add((t['src'], tuple(t['chain'])))
         if pres.skipped:
             exhaustive = False
             ctx.note('level %s: %d of %d programs not explored (time cap)'
@@ -265,6 +276,8 @@ def run(ctx):
         'levels_completed': done, 'exhaustive': exhaustive, 'samples': samples[:4],
         'carrier_hits': carrier_hits, 'invalid_programs_not_judged': invalid[:50],
         'n_invalid_programs': len(invalid), 'carriers': pf.CARRIER_NAMES,
+        'programs_not_expanded_because_a_prefix_already_violates': not_expanded,
+        'violating_prefixes': sorted('%s∘%s' % (a, '∘'.join(b)) for a, b in tainted)[:60],
         'sources': [s for s, _ in pf.SOURCES],
     })
     ctx.assumptions += [
